@@ -334,6 +334,8 @@ class Tracer(TorchFunctionMode):
             if dt[0] == torch.bool:
                 return ew("ne", [args[0], 0])
             return None
+        if short == "__deepcopy__" and one is not None:
+            return ew("id", [args[0]])
         if short == "reciprocal" and one is not None:
             return ew("div", [1.0, args[0]])
         if short == "clamp" and one is not None:
